@@ -136,3 +136,37 @@ Proof.
   { intros l. apply forallb_ext'. intros [k d]. simpl. apply has_reached_ready. }
   rewrite A, B. destruct (lazy st); [rewrite forallb_id_map, forallb_map', B|simpl]; rewrite ?andb_true_r, ?andb_assoc; reflexivity.
 Qed.
+
+(* ---- real-time mode: the wall clock caps the progress ---- *)
+Lemma tmin_unique l m : In m l -> (forall x, In x l -> tle m x = true) -> tmin l = Some m.
+Proof.
+  intros Hin Hle. destruct (tmin l) as [m'|] eqn:E.
+  - destruct (tmin_spec _ _ E) as [I L]. f_equal. apply tle_antisym; [apply L; exact Hin|apply Hle; exact I].
+  - apply tmin_none in E. subst l. destruct Hin.
+Qed.
+
+(* with rt = Some k (k = ceil(seconds passed / rt_factor)) the regenerated advance_progress is the smaller of the model's
+   new_progress and the clock's tick k: in real-time mode no simulator's progress runs ahead of the wall clock *)
+Theorem tie_advance_progress_rt st s i k : (1 <= depth st i)%nat ->
+  advance_progress (view st s i) (nexts (s i)) (cur (s i)) (Some k) (until st) (mkI 1 1 (repeat 0 (depth st i))) =
+  (let w := world_time st i k in if tlt w (new_progress st s i) then w else new_progress st s i).
+Proof.
+  intros Hd. pose proof (tie_advance_progress st s i Hd) as E0. cbv zeta.
+  set (w := world_time st i k). set (np := new_progress st s i) in *.
+  assert (Ew : act [k] (mkI 1 1 (repeat 0 (depth st i))) = w).
+  { unfold w, act, world_time. simpl. destruct (depth st i) as [|n]; [lia|]. simpl. rewrite Z.add_0_r, Nat.sub_0_r. reflexivity. }
+  unfold advance_progress, tmin_ne in *. rewrite Ew. rewrite app_nil_r in E0.
+  match type of E0 with match tmin (?L ++ [?u]) with _ => _ end = _ => set (L0 := L) in *; set (u0 := u) in * end.
+  match goal with |- match tmin (?L1 ++ [?u]) with _ => _ end = _ => set (L1' := L1) end.
+  assert (HL1 : forall x, In x (L1' ++ [u0]) <-> x = w \/ In x (L0 ++ [u0])).
+  { intros x. unfold L1', L0. rewrite !in_app_iff. simpl. intuition (subst; auto). }
+  destruct (tmin (L0 ++ [u0])) as [m|] eqn:Em; [|apply tmin_none in Em; destruct L0; discriminate].
+  unfold np in *. rewrite <- E0. destruct (tmin_spec _ _ Em) as [Im Lm].
+  assert (R : tmin (L1' ++ [u0]) = Some (if tlt w m then w else m)).
+  { apply tmin_unique.
+    - apply HL1. destruct (tlt w m); [left; reflexivity|right; exact Im].
+    - intros x Hx. apply HL1 in Hx. destruct (tlt w m) eqn:Ewm.
+      + destruct Hx as [->|Hx]; [apply tle_refl|]. apply tlt_tle. apply (tlt_tle_trans _ m); [exact Ewm|apply Lm; exact Hx].
+      + destruct Hx as [->|Hx]; [unfold tle; rewrite Ewm; reflexivity|apply Lm; exact Hx]. }
+  rewrite R. reflexivity.
+Qed.
